@@ -69,15 +69,16 @@ package object
 //@ func (e *Env) Set
 //@   requires val != nil
 //@   ensures key == "loop" ==> result != nil
-//@   ensures result != nil ==> forallkey(e.store, k, has(old(e.store), k)) && forallkey(old(e.store), k, e.store[k] == old(e.store[k]))
+//@   ensures result != nil ==> forallkey(e.store, k, old(has(e.store, k)) && e.store[k] == old(e.store[k]))
 //@   ensures result == nil ==> key != "loop" && has(e.store, key) && e.store[key] == val
+//@   ensures result == nil ==> forallkey(e.store, k, k != key ==> old(has(e.store, k)) && e.store[k] == old(e.store[k]))
 //@   modifies contents(e.store)
 
 //@ func (e *Env) SetLoopVar
 //@   modifies contents(e.store)
 
 //@ func EnvFromMap
-//@   ensures result1 == nil ==> result0 != nil && fresh(result0)
+//@   ensures result1 == nil ==> result0 != nil && fresh(result0) && fresh(result0.store)
 //@   modifies nothing
 
 //@ func NativeToObject
